@@ -115,6 +115,8 @@ def events_to_inputs(evs):
             ins.append({"a": "flush", "nis": e["nis"]})
         elif k == "addni":
             ins.append({"a": "addni", "ni": e["ni"]})
+        elif k == "hookstall":
+            ins.append({"a": "hookstall", "ms": e["ms"]})
     return ins
 
 
@@ -300,7 +302,8 @@ class RIBFamily:
                                      timeout=1800), "simulation emission")
             walks += run.emitted()
         if self.directed:
-            walks += self.directed(ctx)
+            # the directed histories come first: a driver that gives up after repeated hangs must have run them by then
+            walks = self.directed(ctx) + walks
         walks = list(dict.fromkeys(walks))
         cap = getattr(self, "MAX_WALKS", None)
         if cap and len(walks) > cap:
@@ -590,7 +593,7 @@ def srv_attr(comp, ev, rec):
     table = {
         "sst:last": {"C04", "C05"},
         "resp:elec": {"C05"}, "sst:cur": {"C05", "C04"}, "sst:master": {"C05", "C04"}, "elecNotMax": {"C05"},
-        "ribCallUnexpected": {"C04"}, "ribCallInsteadOfError": {"C09", "C04"}, "strayrib": {"C04"}, "ribCallMissing": {"C04", "C06"},
+        "ribCallUnexpected": {"C04"}, "ribCallStaleId": {"C04"}, "ribCallInsteadOfError": {"C09", "C04"}, "strayrib": {"C04"}, "ribCallMissing": {"C04", "C06"},
         "opResp": {"C06"}, "ackedNotInstalled": {"C01", "C06"}, "extraResp": {"C06"}, "opsUnanswered": {"C06"}, "opOrder": {"C06"}, "foreignResult": {"C06"},
         "respAfterRibError": {"C06", "C12"}, "respInsteadOfError": {"C09", "C04"},
         "end": {"C09"}, "resp": {"C09"}, "sst:sess": {"C09"}, "msgUnexpected": {"C09"}, "openUnexpected": {"C09"},
@@ -1992,9 +1995,20 @@ class CompFamily:
                 res.notes.append(f"wire trace of conformant run {label} deviates from GribiServer: {n} x {kk}")
             return order
 
+        def run_comp(args, limit):
+            """A suite run that stalls (seen once in some forty runs: a compliance test waiting for ever on a loaded machine) is
+            repeated from scratch; the goroutine dump of the stalled run is kept. A run that stalls three times is no verdict."""
+            for attempt in range(3):
+                try:
+                    return ctx.run_vh(args, watchdog=limit if quick else 4 * limit)
+                except vlib.VhStuck as e:
+                    res.notes.append(f"driver run repeated: {e}")
+                    last = e
+            raise last
+
         for k, (seed, base, dn, vn) in enumerate(perms):
             trace = os.path.join(ctx.work, f"suite{k}.ndjson")
-            p = ctx.run_vh(["comp-run", "-seed", str(seed), "-base", str(base), "-defni", dn, "-vrf", vn, "-out", trace], timeout=3000)
+            p = run_comp(["comp-run", "-seed", str(seed), "-base", str(base), "-defni", dn, "-vrf", vn, "-out", trace], 420)
             if p.returncode != 0:
                 raise Infra("vh comp-run failed: " + p.stdout[-1500:] + p.stderr[-3000:])
             order = judge_suite(trace, f"suite{k}", seed, base, dn, vn)
@@ -2004,7 +2018,7 @@ class CompFamily:
         # deal with election ids and flushes, where the suite's id arithmetic lives)
         trace = os.path.join(ctx.work, "first.ndjson")
         args = ["comp-run", "-each", "-base", "1", "-out", trace] + (["-only", "lection|Flush|master|primary"] if quick else [])
-        p = ctx.run_vh(args, timeout=3000)
+        p = run_comp(args, 900)
         if p.returncode != 0:
             raise Infra("vh comp-run -each failed: " + p.stdout[-1500:] + p.stderr[-3000:])
         first_order = judge_suite(trace, "first-of-run", 0, 1, "DEFAULT", "NON-DEFAULT-VRF")
@@ -2020,7 +2034,7 @@ class CompFamily:
             args = ["comp-run", "-order", of, "-after", lname, "-base", "11", "-out", trace]
             if quick:
                 args += ["-budget", "240s"]
-            p = ctx.run_vh(args, timeout=6000)
+            p = run_comp(args, 900)
             if p.returncode != 0:
                 raise Infra("vh comp-run -after failed: " + p.stdout[-1500:] + p.stderr[-3000:])
             order = judge_suite(trace, f"after{li}", 0, 11, "DEFAULT", "NON-DEFAULT-VRF")
@@ -2035,7 +2049,7 @@ class CompFamily:
                 # a test that draws part of its input at random is repeated on fresh servers until it gives the required verdict
                 for attempt in range(spec.get("repeat", 1)):
                     trace = os.path.join(ctx.work, f"fault-{fault}-{j}.ndjson")
-                    p = ctx.run_vh(["comp-run", "-fault", fault, "-exact", name, "-base", "5", "-out", trace], timeout=1200)
+                    p = run_comp(["comp-run", "-fault", fault, "-exact", name, "-base", "5", "-out", trace], 300)
                     if p.returncode != 0:
                         raise Infra(f"vh comp-run -fault {fault} failed: " + p.stderr[-2000:])
                     tests = self.tests_of(trace)
@@ -2627,3 +2641,111 @@ REGISTRY["C10"].directed = lambda ctx: _c10_old(ctx) + c10_many_abandoned(ctx)
 
 # C09 under a client that has stopped reading, and the per-stream order of messages: handler-grain scenarios of sched-run
 REGISTRY["C09"] = CompositeFamily("C09", [REGISTRY["C09"], SchedFamily("C09")])
+
+
+def c04_directed(ctx):
+    """A stale session stays stale across a Flush: s1 is primary with the higher id, s2 announced a lower one and is refused;
+    after a Flush of every kind (override / with the id, one instance / all) s2 announces its id again (and a third session a
+    lower id still) - their operations are refused, the primary's are programmed, and the reply carries the old maximum."""
+    out = []
+    P = {"k": "params", "red": "SINGLE_PRIMARY", "per": "PRESERVE", "ack": "RIB"}
+    for fl in ({"ni": "*", "el": "override", "id": [0, 0]}, {"ni": "DEFAULT", "el": "override", "id": [0, 0]}, {"ni": "*", "el": "id", "id": [0, 5]}, {"ni": "vrf1", "el": "id", "id": [0, 5]}):
+        for reann in (True, False):
+            w = [{"a": "sreset", "nis": ["DEFAULT", "vrf1"], "fwd": True}, {"a": "open", "s": "s1"}, _msg("s1", P), _msg("s1", {"k": "elec", "id": [0, 5]}),
+                 _msg("s1", {"k": "ops", "ops": [_op(1, "DEFAULT", "ADD", "nh", 1, eid=(0, 5))]}),
+                 {"a": "open", "s": "s2"}, _msg("s2", P), _msg("s2", {"k": "elec", "id": [0, 3]}),
+                 _msg("s2", {"k": "ops", "ops": [_op(2, "DEFAULT", "ADD", "nh", 2, eid=(0, 3))]}),
+                 {"a": "flushrpc", "r": fl}]
+            if reann:
+                w.append(_msg("s2", {"k": "elec", "id": [0, 3]}))
+            w += [_msg("s2", {"k": "ops", "ops": [_op(3, "DEFAULT", "ADD", "nh", 3, eid=(0, 3))]}),
+                  _msg("s1", {"k": "ops", "ops": [_op(4, "DEFAULT", "ADD", "nh", 4, eid=(0, 5))]}),
+                  {"a": "open", "s": "s3"}, _msg("s3", P), _msg("s3", {"k": "elec", "id": [0, 4]}),
+                  _msg("s3", {"k": "ops", "ops": [_op(5, "DEFAULT", "ADD", "nh", 5, eid=(0, 4))]}),
+                  _msg("s1", {"k": "ops", "ops": [_op(6, "DEFAULT", "ADD", "nh", 6, eid=(0, 5))]}),
+                  {"a": "get", "g": {"ni": "*", "aft": "ALL"}}]
+            out.append(json.dumps(w))
+    return out
+
+
+def c09_directed(ctx):
+    """Sessions that come and go in every order: with two (three) sessions open, the oldest / the youngest / the middle one
+    ends (half-close, a receive error, or a protocol violation that ends its RPC) and a new session with the same parameters
+    is opened while the others are still attached - it must be accepted, negotiate, and be served; so must the survivors."""
+    out = []
+    P = {"k": "params", "red": "SINGLE_PRIMARY", "per": "PRESERVE", "ack": "RIB"}
+    ends = {"eof": lambda s: [{"a": "close", "s": s, "mode": "eof"}], "recverr": lambda s: [{"a": "close", "s": s, "mode": "recverr"}],
+            "zeroid": lambda s: [_msg(s, {"k": "elec", "id": [0, 0]})], "reparams": lambda s: [_msg(s, P)]}
+    for n in (2, 3):
+        for victim in range(1, n + 1):
+            for how in ends:
+                w = [{"a": "sreset", "nis": ["DEFAULT", "vrf1"], "fwd": True}]
+                oid = 0
+                for i in range(1, n + 1):
+                    oid += 1
+                    w += [{"a": "open", "s": f"s{i}"}, _msg(f"s{i}", P), _msg(f"s{i}", {"k": "elec", "id": [0, i]}),
+                          _msg(f"s{i}", {"k": "ops", "ops": [_op(oid, "DEFAULT", "ADD", "nh", oid, eid=(0, i))]})]
+                w += ends[how](f"s{victim}")
+                new = f"s{n + 1}"
+                w += [{"a": "open", "s": new}, _msg(new, P), _msg(new, {"k": "elec", "id": [1, 1]}),
+                      _msg(new, {"k": "ops", "ops": [_op(10, "DEFAULT", "ADD", "nh", 10, eid=(1, 1))]})]
+                for i in range(1, n + 1):
+                    if i != victim:
+                        w += [_msg(f"s{i}", {"k": "elec", "id": [1, 1 + i]}), _msg(f"s{i}", {"k": "ops", "ops": [_op(10 + i, "DEFAULT", "ADD", "nh", 10 + i, eid=(1, 1 + i))]})]
+                w.append({"a": "get", "g": {"ni": "*", "aft": "ALL"}})
+                out.append(json.dumps(w))
+    return out
+
+
+REGISTRY["C04"].parts[0].directed = c04_directed
+REGISTRY["C09"].parts[0].directed = c09_directed
+
+
+def c14_directed(ctx):
+    """A backlog queued before StartSending that is larger than the modify channel (1..12 requests behind the session
+    parameters and the election id), on a stream whose k-th Send fails: StartSending, AwaitConverged, a further Q and
+    Close / Reset must all return."""
+    out = []
+    for k in (1, 3, 5, 6, 7, 9, 12):
+        for n in (0, 1, 2, 4):
+            for fin in ("close", "reset"):
+                for cfg in ({"params": True, "elected": True, "elec": [0, 1]}, {}):
+                    w = [dict({"a": "new"}, **cfg), {"a": "connect"}]
+                    for i in range(1, k + 1):
+                        w.append({"a": "q", "m": {"k": "ops", "ops": [{"id": i, "typ": "ADD", "kind": "nh", "key": i}]}})
+                    w += [{"a": "sendfail", "n": n}, {"a": "start"}, {"a": "await"}, {"a": "q", "m": {"k": "ops", "ops": [{"id": k + 1, "typ": "ADD", "kind": "nh", "key": k + 1}]}}, {"a": "await"}, {"a": fin}]
+                    if fin == "reset":
+                        w += [{"a": "connect"}, {"a": "q", "m": {"k": "ops", "ops": [{"id": 1, "typ": "ADD", "kind": "nh", "key": 1}]}}, {"a": "start"}, {"a": "await"}, {"a": "close"}]
+                    out.append(json.dumps(w))
+    return out
+
+
+REGISTRY["C14"].parts[0].directed = c14_directed
+
+
+def c16_slow_consumer(ctx):
+    """A consumer that takes 700 ms over one notification: the change that follows on the same key (DELETE, implicit replace,
+    Flush), in an instance created before or after the hook was registered, must still be folded after it."""
+    out = []
+    for ni, late in (("DEFAULT", False), ("vrf1", False), ("vrf2", True)):
+        for kind in ("v4", "v6", "mpls", "nh"):
+            for follow in ("delete", "replace", "flush"):
+                w = [{"a": "reset", "nis": ["DEFAULT", "vrf1"], "fwd": True}]
+                if late:
+                    w.append({"a": "addni", "ni": ni})
+                if kind != "nh":
+                    w += [{"a": "op", "op": _op(1, ni, "ADD", "nh", 1, noeid=True)}, {"a": "op", "op": _op(2, ni, "ADD", "nhg", 1, nhs=(1,), noeid=True)}]
+                g = {} if kind == "nh" else {"g": 1}
+                key = 5 if kind == "nh" else "k1"
+                w += [{"a": "hookstall", "ms": 700}, {"a": "op", "op": _op(3, ni, "ADD", kind, key, noeid=True, **g)}]
+                if follow == "delete":
+                    w += [{"a": "op", "op": _op(4, ni, "DELETE", kind, key, noeid=True)}, {"a": "op", "op": _op(5, ni, "ADD", kind, key, pl="b", noeid=True, **g)}]
+                elif follow == "replace":
+                    w += [{"a": "op", "op": _op(4, ni, "ADD", kind, key, pl="b", noeid=True, **g)}, {"a": "op", "op": _op(5, ni, "DELETE", kind, key, noeid=True)}]
+                else:
+                    w += [{"a": "flush", "nis": [ni]}]
+                out.append(json.dumps(w))
+    return out
+
+
+REGISTRY["C16"].parts[0].directed = c16_slow_consumer
